@@ -25,6 +25,8 @@ VARIANTS = [
     V("extend-eps-sign", A, "    if right_closed:\n        stop += eps", "    if right_closed:\n        stop -= eps", "R17.2"),
     V("center-crop-from-zero", A, "        start = max(0, array.sizes[dim] // 2 - width // 2)", "        start = 0", "R17.5"),
     V("one-extra-sample", A, "            current_end + step * np.arange(1, extra_width + 1)\n        ).astype(coords.dtype)\n        coords = np.concatenate([coords, new_coords])", "            current_end + step * np.arange(1, extra_width + 2)\n        ).astype(coords.dtype)\n        coords = np.concatenate([coords, new_coords])", "R17.6"),
+    V("dim-step-median-of-first-two", "src/soundevent/arrays/dimensions.py", "    mean_step = steps.mean()", "    mean_step = steps[0]", "R17.7"),
+    V("dim-step-ignores-attribute", "src/soundevent/arrays/dimensions.py", "    if DimAttrs.step.value in attrs:\n        return attrs[DimAttrs.step.value]\n\n", "", "R17.7"),
     # neutral
     V("N-linspace", A, "        new_coords = (\n            current_end + step * np.arange(1, extra_width + 1)\n        ).astype(coords.dtype)\n        coords = np.concatenate([coords, new_coords])",
       "        new_coords = np.linspace(\n            current_end + step, current_end + step * extra_width, num=extra_width\n        ).astype(coords.dtype)\n        coords = np.concatenate([coords, new_coords])", None),
